@@ -5,10 +5,15 @@ use crate::cgen::*;
 use crate::cmodel::*;
 use crate::driver::Opts;
 
-pub const KINDS: [&str; 9] = ["matrix", "rand", "bait", "superchip", "ram3e", "ram3ep", "hw", "pad", "stress"];
+pub const KINDS: [&str; 11] = ["matrix", "rand", "bait", "superchip", "ram3e", "ram3ep", "hw", "pad", "stress", "wild", "wildsplit"];
 
 pub fn cfg_split(scheme_3e: bool) -> GenCfg {
     GenCfg { split_mem: 4, scheme_3e, ptrs: true, ..GenCfg::default() }
+}
+
+/// structure-only profile: see GenCfg::wild
+pub fn cfg_wild(split: bool) -> GenCfg {
+    GenCfg { wild: true, split_mem: if split { 4 } else { 0 }, hw: true, excl_signed_relational: false, ..GenCfg::default() }
 }
 
 pub fn cfg_hw() -> GenCfg {
@@ -44,6 +49,8 @@ pub fn corpus_program(kind: &str, idx: u64) -> (Program, Opts) {
         }
         "hw" => gen_program("hw", idx, &cfg_hw()),
         "pad" => crate::mon_c03::padded_program(idx),
+        "wild" => gen_program("wild", idx, &cfg_wild(false)),
+        "wildsplit" => gen_program("wildsplit", idx, &cfg_wild(true)),
         _ => stress_program(idx, &crate::mon_c01::cfg_c01()),
     };
     (p, o)
